@@ -39,6 +39,9 @@ def respond (line : String) : String :=
   match respondBuildRt ws with
   | some r => r
   | none =>
+  match respondBuildHyp ws with
+  | some r => r
+  | none =>
   match respondReflect ws with
   | some r => r
   | none =>
